@@ -229,6 +229,11 @@ func VerifC17Branch() {
 	if failure {
 		vrt.Reach("xa/phase-one-failed")
 		vrt.Assert(err != nil, "xa/failure=>error")
+		if w.count("XA START", false) > 0 {
+			// the statement may have reached the database: database/sql must not take the
+			// error for "nothing happened on a dead connection" and run the statement again
+			vrt.Assert(!errors.Is(err, driver.ErrBadConn), "xa/failure-after-start-is-not-a-bad-connection-error")
+		}
 		vrt.Assert(w.count("XA COMMIT", false) == 0, "xa/failure=>no-commit")
 		if regOutcome != 0 {
 			vrt.Assert(iStart < 0, "xa/registration-refused=>no-start")
